@@ -251,6 +251,16 @@ fn deep_filter(n: u32) -> Option<Vec<Elem>> {
     Some(els)
 }
 
+/// And(1,1), And(2,2), ..., Not(false): every element is reached on 2^i paths
+fn dag_filter(n: u32) -> Vec<Elem> {
+    let mut els = Vec::new();
+    for i in 0..n {
+        if i + 1 < n { els.push(Elem { op: 10, ops: Some(vec![Opnd::Elem(i + 1), Opnd::Elem(i + 1)]) }); }
+        else { els.push(Elem { op: 7, ops: Some(vec![Opnd::Lit(Val::Bool(false))]) }); }
+    }
+    els
+}
+
 fn child_main(n: u32, stack_kib: u32) -> ! {
     std::panic::set_hook(Box::new(|_| {}));
     let h = std::thread::Builder::new().stack_size(stack_kib as usize * 1024).spawn(move || {
@@ -626,6 +636,9 @@ impl Property for P {
             Case::Deep { n: 1, stack_kib: 2048 }, Case::Deep { n: 2, stack_kib: 2048 }, Case::Deep { n: 101, stack_kib: 2048 },
             Case::Deep { n: 1000, stack_kib: 2048 },
         ];
+        // --- shared sub-elements are legal (more than one path to an element) and re-evaluated on every path:
+        //     12 elements And(i+1, i+1) cost 2^12 evaluations ---
+        v.push(f(dag_filter(12)));
         // --- And / Or / Not truth tables, operands as literals, as strings and through elements ---
         for a in tri_vals() {
             v.push(f(vec![el(7, vec![lit(a.clone())])]));
@@ -717,6 +730,11 @@ fn main() {
         }
         for n in [10u32, 100, 500, 1000, 2000, 4000, 8000] {
             println!("deep {} @2048KiB -> {:?}", n, run_deep(n, 2048));
+        }
+        for n in [16u32, 18, 20, 22] {
+            let t0 = std::time::Instant::now();
+            let out = eval_filter(&[], &Some(dag_filter(n)));
+            println!("dag {} elements -> {:?} in {:?}", n, out, t0.elapsed());
         }
         for (p, t) in [("a_c", "abc"), ("a_c", "ac"), ("_", "xyz"), ("a|b", "a"), ("a{2}", "aa"), ("\\d", "5"), ("%", "a\nb"),
                        ("[]", "a"), ("[]a]", "]"), ("[[a]]", "a"), ("[a&&b]", "a"), ("___", "a"), ("\\%", "%"), ("\\\\%", "\\abc"),
